@@ -66,6 +66,15 @@ type Note struct {
 	Rank int
 }
 
+// Gadget has database-side defaults on two columns (they are inserted only when
+// the struct carries a non-zero value, and read back through RETURNING otherwise).
+type Gadget struct {
+	ID    uint `gorm:"primarykey"`
+	Name  string
+	Score int `gorm:"default:(7)"`
+	Level int `gorm:"default:(3)"`
+}
+
 // KV is the two-column key-value table of the transaction workloads.
 type KV struct {
 	K string `gorm:"primarykey"`
@@ -80,11 +89,11 @@ type Marker struct {
 
 // AllModels lists every model (migration order).
 func AllModels() []interface{} {
-	return []interface{}{&Company{}, &Language{}, &User{}, &Account{}, &Pet{}, &Toy{}, &Note{}, &KV{}, &Marker{}}
+	return []interface{}{&Company{}, &Language{}, &User{}, &Account{}, &Pet{}, &Toy{}, &Note{}, &KV{}, &Marker{}, &Gadget{}}
 }
 
 // Tables lists every table, join tables included (dump order).
-var Tables = []string{"companies", "languages", "users", "accounts", "pets", "toys", "user_languages", "user_friends", "notes", "kvs", "markers"}
+var Tables = []string{"companies", "languages", "users", "accounts", "pets", "toys", "user_languages", "user_friends", "notes", "kvs", "markers", "gadgets"}
 
 // ---------------------------------------------------------------- hooks
 
